@@ -968,3 +968,108 @@ def _strip_axis(e):
     if is_call(e, 'ArrayBase::axis_iter', 'ArrayBase::axis_iter_mut'):
         return e[2][0]
     return e
+
+
+def _is_square_of(e, arg):
+    """e = arg.powi(2) | arg * arg (sites stripped)"""
+    from ..mir import strip_sites as s_
+    e, arg = s_(e), s_(arg)
+    if is_call(e, 'Float::powi', 'f64::powi', 'f32::powi') and e[2][0] == arg and e[2][1] == ('const', 2):
+        return True
+    if is_call(e, 'Mul::mul') and e[2][0] == arg and e[2][1] == arg:
+        return True
+    return e[0] == 'bin' and e[1] == 'Mul' and e[2] == arg and e[3] == arg
+
+
+def l2_norm_row(F, b, R, e):
+    """If `e` is the Euclidean norm of one vector in any of the spellings
+         sqrt(v.map(|x| x^2).sum())  ·  sqrt(v.iter().map(|x| x^2).sum())  ·  sqrt(v.dot(v))  ·
+         sqrt(acc) with acc = 0; for x in v { acc = acc + x^2 }   (a hand-written loop, or `fold` after desugaring)
+       return the expression of v, else None.  x^2 is `x.powi(2)` or `x * x`."""
+    from ..mir import strip_sites as s_
+    if not is_call(e, 'Float::sqrt', 'f64::sqrt', 'f32::sqrt') or not e[2]:
+        return None
+    x = e[2][0]
+    if is_call(x, 'ArrayBase::dot') and s_(x[2][0]) == s_(x[2][1]):
+        return x[2][0]
+    if is_call(x, 'ArrayBase::sum', 'Iterator::sum', 'sum') and x[2]:
+        m = x[2][0]
+        if is_call(m, 'ArrayBase::map', 'ArrayBase::mapv', 'Iterator::map', 'map') and len(m[2]) == 2 and m[2][1][0] == 'closure':
+            cb, crets = closure_ret(F, m[2][1])
+            if cb is not None and crets and len(crets) == 1 and _is_square_of(crets[0], ('param', cb.arg_names()[-1])):
+                src = m[2][0]
+                while is_call(src, 'ArrayBase::iter', 'iter', 'into_iter', 'IntoIterator::into_iter') and src[2]:
+                    src = src[2][0]
+                return src
+        return None
+    if x[0] == 'var':
+        defs_ = [d[2] for d in R.var_defs(x[1])]
+        init = [d for d in defs_ if s_(d) in (('call', 'Zero::zero', ()), ('const', 0.0), ('const', 0))]
+        step = [d for d in defs_ if d not in init]
+        if len(init) != 1 or len(step) != 1:
+            return None
+        st = step[0]
+        l_, r_ = None, None
+        if is_call(st, 'Add::add') and len(st[2]) == 2:
+            l_, r_ = st[2]
+        elif st[0] == 'bin' and st[1] == 'Add':
+            l_, r_ = st[2], st[3]
+        if l_ is None:
+            return None
+        if s_(r_) == s_(x):
+            l_, r_ = r_, l_
+        if s_(l_) != s_(x):
+            return None
+        # r_ = item^2 with item = next(v)
+        sq = s_(r_)
+        item = None
+        if is_call(sq, 'Float::powi', 'f64::powi', 'f32::powi') and sq[2][1] == ('const', 2):
+            item = r_[2][0]
+        elif is_call(sq, 'Mul::mul') and sq[2][0] == sq[2][1]:
+            item = r_[2][0]
+        elif sq[0] == 'bin' and sq[1] == 'Mul' and sq[2] == sq[3]:
+            item = r_[2]
+        if item is None or not is_call(item, 'Iterator::next') or not item[2]:
+            return None
+        src = item[2][0]
+        while is_call(src, 'ArrayBase::iter', 'iter', 'into_iter', 'IntoIterator::into_iter') and src[2]:
+            src = src[2][0]
+        return src
+    return None
+
+
+LAYOUT_DEPENDENT = ('as_slice_memory_order', 'as_slice_memory_order_mut', 'into_raw_vec', 'into_raw_vec_and_offset', 'as_ptr', 'as_mut_ptr',
+                    'from_shape_vec_unchecked', 'from_shape_ptr', 'raw_view', 'raw_view_mut', 'assume_init', 'uninit', 'strides')
+
+
+def check_layout_independence(ctx, rule):
+    """Polytopes and affine functions are generic over the storage (`Data`): views may be strided, reversed or column-major.  Any crate
+    function that reads array *contents in memory order* (or through raw pointers / strides) computes a function of the layout instead of
+    the logical matrix, unless the call is guarded by `is_standard_layout()`.  Expected count on this code base: zero; the instance records
+    how many ndarray call sites were inspected."""
+    from ..mir import Callee, Resolver, literals
+    n = 0
+    bad = []
+    for b in ctx.facts.bodies:
+        R = None
+        for bb, t in b.calls():
+            c = Callee(t['func'])
+            d = (c.resolved or c.def_path or '')
+            if not d.startswith('ndarray::') and not (c.self_ty or '').startswith('ndarray::'):
+                continue
+            n += 1
+            if c.name in LAYOUT_DEPENDENT:
+                R = R or Resolver(b)
+                lits = literals(b, R, bb)
+                if any(l[0] == 'true' and is_call(l[1], 'ArrayBase::is_standard_layout') for l in lits):
+                    continue
+                bad.append((b, t, c.name))
+    site = 'crate#array-contents-in-logical-order'
+    for b, t, name in bad:
+        ctx.bad(rule, site + ':' + b.qname, '%s reads an array through %s without an is_standard_layout() guard: the result depends on strides / memory order, '
+                'not on the matrix (differs for reversed, strided or column-major operands)' % (b.qname, name), t.get('span', b.span))
+    if not bad:
+        if n < 100:
+            ctx.lost(rule, 'ndarray call sites (only %d found)' % n)
+        else:
+            ctx.ok(rule, site, 'none of the %d ndarray call sites of the crate reads contents in memory order, through raw pointers or strides' % n, None)
